@@ -94,6 +94,87 @@ From Verif Require Import Facts_lexer LexBase LexCodeM LexerM LexTables RefTok E
    evaluated by the extracted model on every correspondence input (ctxsim). *)
 Definition lexer_ctx_sim_statement : Prop := forall src : bytes, ctx_sim_ok src = true.
 
+(* This first statement is FALSE: gaps of the reference fragment, each
+   with a witness on which the lexer is right and the reference is not a
+   description of what a browser does any more:
+   - a show whose body holds a general comment with the closing braces inside
+     (the reference ends the show at the first pair of closing braces),
+   - a show, or a quoted greater-than sign, between the name of an end tag
+     and its greater-than sign (the reference skips to the first greater-than
+     sign without looking),
+   - a backslash in front of an end tag inside a string literal of a script
+     (the reference takes it for an escape of the less-than sign; a browser
+     ends the element),
+   - a show inside a shebang line (the lexer takes the line for one token).
+   None of them is a defect of the lexer; the corrected fragment is
+   RefTok2.opt_strict. *)
+From Verif Require Import RefTok2.
+Definition sim_w1 : bytes := [123;123;32;47;42;32;125;125;32;60;97;32;116;105;116;108;101;61;34;123;123;32;42;47;32;115;32;125;125;34;62].
+Definition sim_w2 : bytes := [60;115;99;114;105;112;116;62;60;47;115;99;114;105;112;116;32;120;61;34;123;123;32;115;32;125;125;34;62;123;123;32;115;32;125;125].
+Definition sim_w3 : bytes := [60;115;99;114;105;112;116;62;34;92;60;47;115;99;114;105;112;116;62;123;123;32;115;32;125;125].
+Theorem C06_lexer_ctx_sim_refuted : ~ lexer_ctx_sim_statement.
+Proof. intros H. specialize (H sim_w1). vm_compute in H. discriminate. Qed.
+Theorem C06_lexer_ctx_sim_refuted_end_tag : ctx_sim_ok sim_w2 = false.
+Proof. vm_compute. reflexivity. Qed.
+Theorem C06_lexer_ctx_sim_refuted_backslash : ctx_sim_ok sim_w3 = false.
+Proof. vm_compute. reflexivity. Qed.
+(* a quoted greater-than sign between the name of an end tag and its end,
+   <script></script <a title=">{{ s }}"> *)
+Definition sim_w5 : bytes := [60;115;99;114;105;112;116;62;60;47;115;99;114;105;112;116;32;60;97;32;116;105;116;108;101;61;34;62;123;123;32;115;32;125;125;34;62].
+Theorem C06_lexer_ctx_sim_refuted_end_tag_quote : ctx_sim_ok sim_w5 = false.
+Proof. vm_compute. reflexivity. Qed.
+(* a show inside a shebang line, which the lexer takes for one token *)
+Definition sim_w4 : bytes := [35;33;123;123;32;115;32;125;125].
+Theorem C06_lexer_ctx_sim_refuted_shebang : ctx_sim_ok sim_w4 = false.
+Proof. vm_compute. reflexivity. Qed.
+
+(* The corrected statement of layer (B): the same with these gaps closed
+   (the witnesses are outside the fragment).  Stated, evaluated by the
+   extracted model on every correspondence input (ctxsim2), not proved in
+   full: see C06_lexer_ctx_sim_html_partial below. *)
+Definition lexer_ctx_sim_strict_statement : Prop := forall src : bytes, ctx_sim_ok2 opt_strict src = true.
+Example C06_strict_witnesses_outside :
+  map (ref_contexts2 opt_strict) [sim_w1; sim_w2; sim_w3; sim_w4; sim_w5] = [None; None; None; None; None].
+Proof. vm_compute. reflexivity. Qed.
+
+(* Proved: the corrected statement on the sub-fragment opt_html of
+   opt_strict - text, tags with double or single quoted attributes (names of
+   letters and hyphens, spaces around the equals sign, URL attributes
+   included), shows of the form "{{" spaces identifier spaces "}}" in text and
+   inside quoted attribute values; script and style elements, unquoted
+   attributes, comments, CDATA sections and end tags are outside it.  For
+   every source made of bytes: whenever the reference tokenizer stays inside
+   this sub-fragment, the lexer model (scan_template with the Unicode tables
+   of Go, format HTML) sends a show token at every show the reference meets,
+   at the same offset and with the context that abstracts the state of the
+   reference there (ctx_of), or rejects the template with a lexer error.  The
+   proof is a simulation between the main loop of the lexer (scan, scanTag,
+   scanAttribute, the tag and attribute contexts, lexShow and lexCode on the
+   body of the show) and the byte-by-byte reference (proofs/LexSim_proofs.v). *)
+From Verif Require Import LexSim_proofs.
+Definition lexer_ctx_sim_html_statement : Prop :=
+  forall src : bytes, is_bytes src = true -> ctx_sim_ok2 opt_html src = true.
+Theorem C06_lexer_ctx_sim_html_partial : lexer_ctx_sim_html_statement.
+Proof. exact lexer_ctx_sim_html. Qed.
+Print Assumptions C06_lexer_ctx_sim_html_partial.
+
+(* the sub-fragment is a part of the corrected fragment: the corrected statement holds of every
+   source on which the reference with opt_html stays inside its fragment *)
+From Verif Require Import RefIncl_proofs.
+Theorem C06_lexer_ctx_sim_strict_on_html_partial :
+  forall (src : bytes) w, is_bytes src = true -> ref_contexts2 opt_html src = Some w ->
+    ref_contexts2 opt_strict src = Some w /\ ctx_sim_ok2 opt_strict src = true.
+Proof. exact strict_on_html. Qed.
+Print Assumptions C06_lexer_ctx_sim_strict_on_html_partial.
+
+(* non-vacuity: a source of the sub-fragment with a show in a quoted attribute value and one in text,
+   <p title="{{ s }}">x{{ s }} *)
+Example C06_lexer_ctx_sim_html_example :
+  is_bytes [60;112;32;116;105;116;108;101;61;34;123;123;32;115;32;125;125;34;62;120;123;123;32;115;32;125;125] = true /\
+  ref_contexts2 opt_html [60;112;32;116;105;116;108;101;61;34;123;123;32;115;32;125;125;34;62;120;123;123;32;115;32;125;125]
+    = Some [(10, gen_ContextQuotedAttr); (20, gen_ContextHTML)].
+Proof. vm_compute. split; reflexivity. Qed.
+
 (* proved sub-lemmas, over the generated facts of isEndScript / isEndStyle:
    the end tag test of the lexer accepts exactly "</", the element name in any
    letter case and one of tab, LF, CR, space, ">" *)
